@@ -12,6 +12,7 @@ import ast
 from typing import Dict, List, Optional, Set
 
 from ..model import Program, AnalysisError, FuncInfo, walk_local, dotted
+from ..cfg import CFG
 from ..report import RuleResult
 from ..astutil import src, site, calls_in, call_name, is_self_attr
 from ..callgraph import closure
@@ -252,6 +253,62 @@ def match_factory(prog: Program) -> RuleResult:
     return r
 
 
+def match_memo_order(prog: Program) -> RuleResult:
+    """A pattern is resolved top-down: `_resolve` tells each nested match its variable and its parent and registers the selected parts with
+    the outermost match.  A memoised member (cached_property / lru_cache) freezes what it computes at first use; if it is computed from a
+    field that the resolution assigns, it must not be read on any path before that assignment - or the nested match remembers the state
+    it had while it was still unattached (e.g. 'I am the root')."""
+    from ..callgraph import self_closure
+
+    r = RuleResult("MATCH-MEMO-ORDER", "no memoised member of a pattern is read before the fields it is computed from are assigned", floor=3)
+    mod = prog.module("entity_query_language.match")
+    n = 0
+    for c in sorted(mod.classes.values(), key=lambda x: x.qual):
+        memo = {nm: g for nm, g in c.methods.items() if g.is_cached_property or g.is_lru_cache}
+        for pname, pf in sorted(memo.items()):
+            n += 1
+            pcl, _ = self_closure(prog, c.qual, pf, True)
+            deps = {x.attr for g in pcl for x in walk_local(g.node) if isinstance(x, ast.Attribute) and isinstance(x.value, ast.Name) and x.value.id == (g.params[0] if g.params else "self") and isinstance(x.ctx, ast.Load)}
+            bad = None
+            for mname, mf in sorted(c.methods.items()):
+                if mname in ("__init__", "__post_init__") or mf is pf:
+                    continue
+                cfg = CFG(mf.node)
+                selfn = mf.params[0] if mf.params else "self"
+                assigns = [nd for nd in cfg.nodes if nd.kind == "stmt" and isinstance(nd.stmt, (ast.Assign, ast.AnnAssign)) and any(
+                    isinstance(t, ast.Attribute) and isinstance(t.value, ast.Name) and t.value.id == selfn and t.attr in deps
+                    for t in (nd.stmt.targets if isinstance(nd.stmt, ast.Assign) else [nd.stmt.target]))]
+                if not assigns:
+                    continue
+                # readers of the memoised member in this method: direct reads, and self calls whose closure reads it
+                for nd in cfg.nodes:
+                    if nd.stmt is None or nd in assigns:
+                        continue
+                    reads = False
+                    for part in cfg._own_parts(nd):
+                        for x in ast.walk(part):
+                            if isinstance(x, ast.Attribute) and isinstance(x.value, ast.Name) and x.value.id == selfn and isinstance(x.ctx, ast.Load):
+                                if x.attr == pname:
+                                    reads = True
+                                else:
+                                    g = prog.lookup(c.qual, x.attr)
+                                    if g is not None and g is not mf and g is not pf:
+                                        gcl, _ = self_closure(prog, c.qual, g, True)
+                                        if pf in gcl or any(isinstance(y, ast.Attribute) and y.attr == pname and isinstance(y.value, ast.Name) and y.value.id == (h.params[0] if h.params else "self") for h in gcl for y in walk_local(h.node)):
+                                            reads = True
+                    if reads and cfg.path_avoiding(cfg.entry, nd.id, {a.id for a in assigns}) is not None:
+                        fld = sorted({t.attr for a in assigns for t in (a.stmt.targets if isinstance(a.stmt, ast.Assign) else [a.stmt.target]) if isinstance(t, ast.Attribute)})
+                        bad = bad or (mf, nd, fld)
+            r.check(bad is None, f"{c.name}.{pname}#not-read-before-its-inputs", site(bad[0], bad[1].stmt) if bad else site(pf), f"memoised; computed from self.{{{', '.join(sorted(deps))[:80]}}}",
+                    "every read of the memoised member comes after the assignments of the fields it depends on",
+                    f"{c.name}.{pname} is memoised and computed from {bad[2] if bad else ''}, which {bad[0].short if bad else ''} assigns only *after* a path on which the member is already read "
+                    f"(line {bad[1].lineno if bad else 0}): the first value sticks - a select nested under another select takes itself for the outermost match and the parts selected "
+                    "beneath it never reach the query's selected variables")
+    if n < 3:
+        raise AnalysisError(f"MATCH-MEMO-ORDER: only {n} memoised members found in match.py")
+    return r
+
+
 def match_ops(prog: Program) -> RuleResult:
     r = RuleResult("MATCH-OPS", "contains / in_ put container and item into the slots the comparator applies them from", floor=3)
     ent = prog.module("entity_query_language.entity")
@@ -393,6 +450,6 @@ def run(prog: Program, tier: str) -> List[RuleResult]:
     from .c01 import ep_quant, ep_thread
 
     # match_any compiles to the existential quantifier: one answer per binding of the free variables
-    return [match_table(prog), match_iter(prog), match_factory(prog), match_ops(prog), ident_dedup(prog), domain_cache(prog), ep_quant(prog),
+    return [match_table(prog), match_iter(prog), match_factory(prog), match_memo_order(prog), match_ops(prog), ident_dedup(prog), domain_cache(prog), ep_quant(prog),
             # selected inner parts are evaluated under the bindings of the matched element: the row threading of C01
             ep_thread(prog)]
